@@ -299,3 +299,122 @@ def _replay_constrain(model, contract):
 
 
 CONTRACTS["optimization:TotalSpendConstraint.constrain_instructions#one_year_two_programs"]["replay_hook"] = _replay_constrain
+
+
+# ---- TotalSpendConstraint.get_hard_constraint (C14: "constraints that are impossible from the outset are reported before optimization
+# starts"): the body of the loop that collects the bounds of one constrained year, for two SpendingAdjustments (programs a and b,
+# one adjustable each, relative or absolute bounds, both finite).  Each program's bounds are its adjustable's hard bounds at the
+# spending of THAT year, and a total outside [sum of the minima, sum of the maxima] is refused with UnresolvableConstraint.
+def _env_hard(limit_type):
+    def make(it):
+        import numpy as np
+        from pyvc.interp import PyObjV
+        from pyvc import source
+
+        om, um = source.load("optimization"), source.load("utils")
+        T = 2020.0
+        sp = [z3.Real("spend_%d" % i) for i in range(2)]
+        lo = [z3.Real("lower_%d" % i) for i in range(2)]
+        hi = [z3.Real("upper_%d" % i) for i in range(2)]
+        ts = lambda i: PyObjV("TimeSeries", um, {"t": [T], "vals": [sp[i]], "units": "$", "assumption": None, "sigma": None, "_sampled": False})
+        instructions = PyObjV("ProgramInstructions", source.load("programs"), {"alloc": {"a": ts(0), "b": ts(1)}})
+        adj = lambda i, p: PyObjV("SpendingAdjustment", om, {"name": p, "prog_name": p, "t": np.array([T]),
+                                                              "adjustables": [PyObjV("Adjustable", om, {"name": p, "limit_type": limit_type, "lower_bound": lo[i], "upper_bound": hi[i]})]})
+        optimization = PyObjV("Optimization", om, {"adjustments": [adj(0, "a"), adj(1, "b")]})
+        total = z3.Real("TOTAL")
+        hc = {"programs": {T: ["a", "b"]}, "initial_total_spend": {T: total}, "bounds": {}}
+        mult = (lambda i, b: b) if limit_type == "abs" else (lambda i, b: sp[i] * b)
+        return {"self": PyObjV("TotalSpendConstraint", om, {}), "instructions": instructions, "optimization": optimization, "hard_constraints": hc, "t": T, "progs": ["a", "b"],
+                "TOTAL": total, "LO": [mult(i, lo[i]) for i in range(2)], "HI": [mult(i, hi[i]) for i in range(2)], "sp": sp}
+
+    return make
+
+
+for _lt in ("abs", "rel"):
+    CONTRACTS["optimization:TotalSpendConstraint.get_hard_constraint#bounds_of_one_year_%s" % _lt] = dict(
+        schema=schema, fragment={"iter": "hard_constraints['programs'].items()", "body_contains": "minimum_spend"}, make_env=_env_hard(_lt),
+        requires=["sp[0] >= 0", "sp[1] >= 0"],
+        raises={"UnresolvableConstraint": "LO[0] + LO[1] > TOTAL or HI[0] + HI[1] < TOTAL"}, raises_props=["C14"],
+        ensures=[
+            ("C14.each_program_is_bounded_by_its_adjustable_at_that_year", "hard_constraints['bounds'][2020.0]['a'] == (LO[0], HI[0]) and hard_constraints['bounds'][2020.0]['b'] == (LO[1], HI[1])"),
+            ("C14.an_accepted_total_lies_between_the_sums_of_the_bounds", "LO[0] + LO[1] <= TOTAL and TOTAL <= HI[0] + HI[1]"),
+        ],
+        defined_props=["C14"])
+
+
+def _replay_hard(limit_type):
+    def replay(model, contract):
+        """replay on the REAL TotalSpendConstraint.get_hard_constraint with two real SpendingAdjustments (spending 30 and 70 in 2020) and
+        explicit totals below the sum of the minima, inside, and above the sum of the maxima"""
+        import atomica as at
+        import atomica.optimization as ao
+
+        lo, hi = ([15.0, 35.0], [60.0, 140.0]) if limit_type == "abs" else ([0.5, 0.5], [2.0, 2.0])
+        want_lo, want_hi = [15.0, 35.0], [60.0, 140.0]
+
+        class _Opt:
+            pass
+
+        bad, tried = [], []
+        for total, ok in ((40.0, False), (50.0, True), (100.0, True), (200.0, True), (250.0, False)):
+            opt = _Opt()
+            opt.adjustments = [ao.SpendingAdjustment("a", 2020.0, limit_type, lo[0], hi[0]), ao.SpendingAdjustment("b", 2020.0, limit_type, lo[1], hi[1])]
+            instr = at.ProgramInstructions(start_year=2020, alloc={"a": at.TimeSeries(2020.0, 30.0), "b": at.TimeSeries(2020.0, 70.0)})
+            c = ao.TotalSpendConstraint(total_spend=total, t=2020.0)
+            case = dict(total=total, limit_type=limit_type, lower=lo, upper=hi)
+            try:
+                hc = c.get_hard_constraint(opt, instr)
+            except ao.UnresolvableConstraint:
+                case["outcome"] = "refused"
+                if ok:
+                    bad.append("a total of %r between the sums of the bounds (50, 200) was refused" % total)
+                tried.append(case)
+                continue
+            except Exception as e:  # noqa
+                bad.append("total %r: raised %s: %s" % (total, type(e).__name__, e))
+                continue
+            case["outcome"] = "accepted"
+            tried.append(case)
+            if not ok:
+                bad.append("a total of %r outside the sums of the bounds (50, 200) was accepted" % total)
+            got = hc["bounds"][2020.0]
+            for i, p in enumerate(("a", "b")):
+                if tuple(float(x) for x in got[p]) != (want_lo[i], want_hi[i]):
+                    bad.append("program %s is bounded by %r, its adjustable gives (%r, %r)" % (p, tuple(got[p]), want_lo[i], want_hi[i]))
+        return dict(verdict="violates" if bad else "holds", detail="; ".join(bad[:3]) or "bounds as the adjustables give them; totals outside [50, 200] refused", prestate=dict(spending={"a": 30.0, "b": 70.0}, cases=tried))
+
+    return replay
+
+
+for _lt in ("abs", "rel"):
+    CONTRACTS["optimization:TotalSpendConstraint.get_hard_constraint#bounds_of_one_year_%s" % _lt]["replay_hook"] = _replay_hard(_lt)
+
+
+# ---- the total of one constrained year (second loop of get_hard_constraint): the sum of the current spending of the programs that are
+# adjustable in that year, or the explicitly given total, times the budget factor
+def _env_total(explicit):
+    def make(it):
+        import numpy as np
+        from pyvc.interp import PyObjV
+        from pyvc.core import LArr
+        from pyvc import source
+
+        om, um = source.load("optimization"), source.load("utils")
+        T = 2020.0
+        sp = [z3.Real("spend_%d" % i) for i in range(3)]
+        bf, given = z3.Real("budget_factor"), z3.Real("given_total")
+        ts = lambda i: PyObjV("TimeSeries", um, {"t": [T], "vals": [sp[i]], "units": "$", "assumption": None, "sigma": None, "_sampled": False})
+        instructions = PyObjV("ProgramInstructions", source.load("programs"), {"alloc": {"a": ts(0), "b": ts(1), "not_adjustable": ts(2)}})
+        self = PyObjV("TotalSpendConstraint", om, {"t": np.array([T]) if explicit else (), "total_spend": LArr(1, lambda i: given) if explicit else (), "budget_factor": LArr(1, lambda i: bf)})
+        return {"self": self, "instructions": instructions, "optimization": None, "hard_constraints": {"programs": {T: ["a", "b"]}, "initial_total_spend": {}}, "t": T, "progs": ["a", "b"],
+                "sp": sp, "bf": bf, "given": given}
+
+    return make
+
+
+for _explicit in (False, True):
+    CONTRACTS["optimization:TotalSpendConstraint.get_hard_constraint#total_of_one_year_%s" % ("given" if _explicit else "from_the_allocation")] = dict(
+        schema=schema, fragment={"iter": "hard_constraints['programs'].items()", "body_contains": "budget_factor"}, make_env=_env_total(_explicit),
+        ensures=[("C14.required_total_is_%s_times_the_budget_factor" % ("the_given_total" if _explicit else "the_current_spending_of_the_adjustable_programs"),
+                  "len(hard_constraints['initial_total_spend'][2020.0]) == 1 and hard_constraints['initial_total_spend'][2020.0][0] == %s * bf" % ("given" if _explicit else "(sp[0] + sp[1])"))],
+        defined_props=["C14"])
